@@ -52,9 +52,18 @@ def strategy(ctx):
         ep = pool.mix("c40edit" + kind, e)
         nested = st.tuples(st.just("meta"), st.sampled_from(["k", "j"]), st.sampled_from([[1], {"a": [1]}, [[2], 3], {"sub": 0}])).map(list)
         inplace = st.tuples(st.just("meta_inplace"), st.sampled_from(["k", "j", 0, 1]), st.integers(0, 9)).map(list)
+        if kind in ("http", "ws"):
+            # present-but-empty containers and in-place edits of them (trailers / headers objects)
+            empties = st.one_of(st.tuples(st.sampled_from(["req_trailers", "resp_trailers", "req_headers", "resp_headers"]), st.just([])),
+                                st.tuples(st.just("meta"), st.sampled_from(["k", "j"]), st.sampled_from([[], {}]))).map(list)
+            inplace = st.one_of(inplace, st.tuples(st.sampled_from(["req_tadd", "resp_tadd", "req_hadd_inplace", "resp_hadd_inplace"]),
+                                                   st.sampled_from([b"x-t", b"t"]), st.sampled_from([b"y", b""])).map(list))
+        else:
+            empties = st.tuples(st.just("meta"), st.sampled_from(["k", "j"]), st.sampled_from([[], {}])).map(list)
         op = st.one_of(
             st.tuples(st.just("edit"), ep), st.tuples(st.just("edit"), ep), st.tuples(st.just("edit"), ep),
             st.tuples(st.just("edit"), nested), st.tuples(st.just("edit"), inplace), st.tuples(st.just("edit_copy"), inplace),
+            st.tuples(st.just("edit"), empties), st.tuples(st.just("edit"), inplace),
             st.tuples(st.just("backup")), st.tuples(st.just("backup")), st.tuples(st.just("revert")),
             st.tuples(st.just("copy")), st.tuples(st.just("copy")), st.tuples(st.just("edit_copy"), ep),
             st.tuples(st.just("revert_copy")), st.tuples(st.just("revert_copy")), st.tuples(st.just("backup_copy")),
